@@ -251,7 +251,9 @@ def inbreeding_case(draw):
     Fs = [draw(st.one_of(st.floats(0.01, 0.95), st.sampled_from([0.5, 1e-3]))) for _ in range(nd)]
     return dict(nd=nd, L=L, grid=spec, phi_seed=draw(st.integers(0, 2 ** 31 - 1)), phi_kind=draw(st.sampled_from(G.PHI_KINDS)),
                 ploidys=ploidys, ninds=ninds, Fs=Fs, mode=draw(st.sampled_from(['general', 'general', 'small-F', 'zero-F', 'mixed-zero'])),
-                het=draw(st.sampled_from([None, None, None, 'xx', 'yy'])))
+                het=draw(st.sampled_from([None, None, None, 'xx', 'yy'])),
+                # one grid per population in half the multi-population cases (used by the general branch; lesson of seed C05h)
+                axis_grids=[draw(st.integers(0, 2)) for _ in range(nd)] if nd >= 2 and draw(st.booleans()) else [0] * nd)
 
 
 @REG.relation('R5-inbreeding', strategy=inbreeding_case, quick=(400, 16), thorough=(6000, 16))
@@ -305,14 +307,17 @@ def r5(c, rec):
                       atol=1e-8 * np.abs(exp).max(), finding='mixed-zero-F')
         return
     kw = dict(het_ascertained=het) if het else {}
+    grids, perpop = grids_of(c, xx)
+    if perpop:
+        rec.label('per-population grids')
     with dadi_call('from_phi_inbreeding', path='inbreeding', dim=nd, het=het):
-        fs = dadi.Spectrum.from_phi_inbreeding(phi, ns, [xx] * nd, Fs, ploidys, mask_corners=False, **kw)
-    Ws = [S.W_inbreeding(n, p, xx, F, het=(het is not None and 'xyz'.index(het[0]) == k)) for k, (n, p, F) in enumerate(zip(ns, ploidys, Fs))]
+        fs = dadi.Spectrum.from_phi_inbreeding(phi, ns, grids, Fs, ploidys, mask_corners=False, **kw)
+    Ws = [S.W_inbreeding(n, p, grids[k], F, het=(het is not None and 'xyz'.index(het[0]) == k)) for k, (n, p, F) in enumerate(zip(ns, ploidys, Fs))]
     exp = S.contract(phi, Ws)
     require_close(data_of(fs), exp, 1e-8, 'inbreeding spectrum vs convolution oracle', rec, key='inbreeding', atol=1e-12 * np.abs(exp).max(),
                   path='inbreeding', dim=nd)
     if het is None:
-        require_close(data_of(fs).sum(), float(S.contract(phi, [S.trapz_weights(xx)[None, :]] * nd).ravel()[0]), 1e-8,
+        require_close(data_of(fs).sum(), float(S.contract(phi, [S.trapz_weights(g)[None, :] for g in grids]).ravel()[0]), 1e-8,
                       'sum of all entries (inbreeding) vs trapezoid mass', rec, key='inbreeding total', atol=1e-300)
 
 
